@@ -11,7 +11,7 @@ import (
 
 // VerifC18ErrAlias: values handed back by Unmarshal - including the JSON value recorded in a
 // SemanticError - are not altered by later calls nor by the caller overwriting the input buffer
-// it passed. The input is a number (symbolic digits) that does not fit the int8 destination.
+// it passed. The input is a number (symbolic digits); the cases that do not fit the int8 destination are compared.
 func VerifC18ErrAlias(nd int, viaReader bool) {
 	digits := vrt.Bytes("d", nd)
 	for _, c := range digits {
@@ -24,6 +24,10 @@ func VerifC18ErrAlias(nd int, viaReader bool) {
 		err = UnmarshalRead(bytes.NewReader(in), &v)
 	} else {
 		err = Unmarshal(in, &v)
+	}
+	if err == nil {
+		vrt.Cover("fits") // three digits up to 127 fit the destination: nothing to compare
+		return
 	}
 	se, ok := err.(*SemanticError)
 	vrt.Cover("error")
